@@ -129,3 +129,28 @@ Fixpoint find_fst {B} (l : list (N * B)) (k : N) (i : N) : option N :=
 Definition obsearch_fst {B} (l : list (N * B)) (k : N) : outcome N := ounwrap (find_fst l k 0).
 (* -a on iW *)
 Definition zineg (w : N) (a : Z) : outcome Z := if zin w (- a)%Z then Val (- a)%Z else Fault Overflow.
+
+(* for (i, x) in l.iter().enumerate() { body } *)
+Fixpoint iteri_loop {A S R} (body : N -> A -> S -> outcome (step S R)) (i : N) (l : list A) (s : S)
+  : outcome (fin S R) :=
+  match l with
+  | [] => Val (Done s)
+  | x :: l' =>
+      let! r := body i x s in
+      match r with
+      | Next s' => iteri_loop body (i + 1) l' s'
+      | Brk s' => Val (Done s')
+      | Ret v => Val (Retd v)
+      end
+  end.
+
+(* l.iter().fold(a0, |a, x| f a x) *)
+Fixpoint ofold {A B} (f : A -> B -> outcome A) (l : list B) (a : A) : outcome A :=
+  match l with
+  | [] => Val a
+  | x :: l' => let! a' := f a x in ofold f l' a'
+  end.
+
+(* v[i].push(x) on a local array of vectors *)
+Definition push_at {A} (l : list (list A)) (i : N) (x : A) : outcome (list (list A)) :=
+  let! li := idx l i in Val (setN l i (li ++ [x])).
